@@ -108,6 +108,16 @@ class DataDir:
                 os.symlink(target, os.path.join(self.path, 'xor.dat'))
             with open(target, 'wb') as f:
                 f.write(xor_key)
+        if amb and hsh[11] % 5 == 0:
+            # blk files kept on other storage and linked into the directory (absolute symbolic links; the key file stays here)
+            cold = self.path.rstrip('/') + '-cold'
+            shutil.rmtree(cold, ignore_errors=True)
+            os.makedirs(cold)
+            for k_, f in enumerate(sorted(os.listdir(self.path))):
+                full = os.path.join(self.path, f)
+                if f.startswith('blk') and f.endswith('.dat') and os.path.isfile(full) and not os.path.islink(full) and (hsh[12] % 2 == 0 or (hsh[13] >> (k_ % 8)) & 1):
+                    os.rename(full, os.path.join(cold, f))
+                    os.symlink(os.path.join(cold, f), full)
         if amb and hsh[10] % 4 == 0:
             # a leftover copy of another node's blocks folder inside this one: sub-directories are named by no record
             sub = os.path.join(self.path, 'blocks')
